@@ -7,6 +7,7 @@ from .. import interval as I_
 from ..astutil import norm_nc, aug_form, dotted, effective, method_call
 from ..cfg import canon_test, cfg_of, fact_key, norm, walk_own
 from ..consteval import Scope, fold_in
+from ..flow import one_shot_rules
 from ..mutate import B, M
 
 PROP = 'C13'
@@ -377,6 +378,9 @@ def trajectory_rules(ctx, rule='R4'):
             if isinstance(d, dict):
                 tbl.update(d)
     ctx.inst(rule, et, 'type-table', tbl == {0: 0, 1: 1, 3: 2, 7: 3}, 'element length -> type code table %s, expected {0:0, 1:1, 3:2, 7:3}' % tbl)
+    # the encoded element is a one-shot map object: it is run through once, by the packing loop (a debug list(...) before it leaves the
+    # segment without control points)
+    one_shot_rules(ctx, rule, [TRJ])
     p4 = m.func(TRJ, 'Poly4D.pack')
     seq = [norm(s.value) for s in p4.node.body if isinstance(s, ast.AugAssign)]
     ctx.inst(rule, p4, 'poly4d-layout', seq == ["struct.pack('<ffffffff', *self.x.values)", "struct.pack('<ffffffff', *self.y.values)", "struct.pack('<ffffffff', *self.z.values)",
@@ -502,6 +506,15 @@ def quaternion_rules(ctx, rule='R3'):
         okr = B_.is_input_field(mb, 0, 9, 'comp', 0) and all(b == 0 for b in mb[9:]) and B_.is_input_field(nb, 0, 1, 'comp', 9) and all(b == 0 for b in nb[1:]) and \
             B_.is_input_field(cb, 0, 22, 'comp', 10)
     ctx.inst(rule, dq, 'reader-group', okr, 'reader pops magnitude = bits 8..0, sign = bit 9, then shifts by 10')
+    # ... for every transmitted component: the only condition on popping a group is that the component is not the dropped one (a short
+    # cut for a zero magnitude that also skips the shift makes all later components read the same bits)
+    gdq = cfg_of(dq)
+    shifts = [n for n in gdq.nodes if n.kind == 'stmt' and any(x is n.ast for x in walk_own(rl[0])) and
+              ((isinstance(n.ast, ast.Assign) and norm(n.ast.targets[0]) == 'comp') or (isinstance(n.ast, ast.AugAssign) and norm(n.ast.target) == 'comp'))]
+    ivr = norm(rl[0].target)
+    oksh = len(shifts) == 1 and gdq.fact_keys_at(shifts[0]) - gdq.fact_keys_at(gdq.node_of(rl[0].iter) or shifts[0]) == {fact_key('%s == i_largest' % ivr, False)}
+    ctx.inst(rule, dq, 'reader-consumes-every-group', oksh, 'the 10-bit group is shifted out whenever the component is not the dropped one; guards of the shift: %s'
+             % (sorted(gdq.fact_keys_at(shifts[0])) if shifts else 'no shift'))
     il = [s for s in dq.node.body if isinstance(s, ast.Assign) and norm(s.targets[0]) == 'i_largest']
     ctx.inst(rule, dq, 'index-shift=30', len(il) == 1 and norm(il[0].value) == 'comp >> 30', 'index is read from bits 31..30 (3 groups x 10 bits)')
     wm = [s for s in walk_own(wl[0]) if isinstance(s, ast.Assign) and norm(s.targets[0]) == 'mag']
